@@ -44,15 +44,17 @@ pub open spec fn minf_exact(b: MinfBox) -> bool { stbl_exact(b.stbl) }
 pub open spec fn mdia_exact(b: MdiaBox) -> bool { minf_exact(b.minf) }
 pub open spec fn trak_exact(b: TrakBox) -> bool { mdia_exact(b.mdia) }
 
-// ---- moov (8.2.1): mvhd, the tracks in order (mvex / meta / udta: absent in what the muxer writes)
+// ---- moov (8.2.1): mvhd, the tracks in order, mvex if any (meta / udta: no byte-exact encoder, required absent by moov_wire)
 pub open spec fn traks_bytes(v: Seq<TrakBox>, n: int) -> Seq<u8>
     decreases n
 {
     if n <= 0 { Seq::<u8>::empty() } else { traks_bytes(v, n - 1) + trak_bytes(v[n - 1]) }
 }
-pub open spec fn moov_exact(b: MoovBox) -> bool { b.mvex is None && forall|i: int| 0 <= i < b.traks@.len() ==> trak_exact(#[trigger] b.traks@[i]) }
+pub open spec fn moov_exact(b: MoovBox) -> bool { forall|i: int| 0 <= i < b.traks@.len() ==> trak_exact(#[trigger] b.traks@[i]) }
 pub open spec fn moov_head(b: MoovBox) -> Seq<u8> { hdr_bytes(moov_len(b) as u64, 0x6d6f6f76) + mvhd_bytes(b.mvhd) }
-pub open spec fn moov_bytes(b: MoovBox) -> Seq<u8> { moov_head(b) + traks_bytes(b.traks@, b.traks@.len() as int) }
+pub open spec fn moov_bytes(b: MoovBox) -> Seq<u8> {
+    moov_head(b) + traks_bytes(b.traks@, b.traks@.len() as int) + (match b.mvex { Some(x) => mvex_bytes(x), None => Seq::<u8>::empty() })
+}
 pub proof fn lemma_traks_bytes_len(v: Seq<TrakBox>, n: int)
     requires 0 <= n <= v.len(), forall|i: int| 0 <= i < v.len() ==> trak_wire(#[trigger] v[i]) && trak_exact(v[i])
     ensures traks_bytes(v, n).len() == traks_len(v, n)
@@ -67,4 +69,5 @@ pub proof fn lemma_moov_bytes_len(b: MoovBox)
     broadcast use lemma_be_bytes_len;
     lemma_mvhd_pre_len(b.mvhd);
     lemma_traks_bytes_len(b.traks@, b.traks@.len() as int);
+    if b.mvex is Some { lemma_mvex_pre(b.mvex->Some_0); }
 }
